@@ -635,11 +635,15 @@ class WebSocketResponse(StreamResponse, Generic[_DecodeText]):
             except asyncio.TimeoutError:
                 raise
             except EofStream:
-                self._close_code = WSCloseCode.OK
+                # Could be closed by another task while awaiting reader;
+                # close() then owns the close code.
+                if not self._closed:
+                    self._close_code = WSCloseCode.OK
                 await self.close()
                 return WS_CLOSED_MESSAGE
             except WebSocketError as exc:
-                self._close_code = exc.code
+                if not self._closed:
+                    self._close_code = exc.code
                 await self.close(code=exc.code)
                 return WSMessageError(data=exc)
             except Exception as exc:
@@ -663,7 +667,11 @@ class WebSocketResponse(StreamResponse, Generic[_DecodeText]):
                     # likely result writing to a broken pipe.
                     await self.close(drain=False)
             elif msg.type is WSMsgType.CLOSING:
-                self._set_closing(WSCloseCode.OK)
+                # Woken by close() of another task: it has sent the close
+                # frame and now waits for the peer's close frame itself,
+                # it also reports the close code.
+                if not self._closed:
+                    self._set_closing(WSCloseCode.OK)
             elif msg.type is WSMsgType.PING and self._autoping:
                 await self.pong(msg.data)
                 continue
